@@ -51,7 +51,7 @@ def _assigned(stmt):
 
 def reports(root):
     # pass 1: real-valued block coordinates (bounding box); pass 2: integer-valued coordinates (integer attributes tile the page)
-    return [_report(root, 'real'), _report(root, 'int')]
+    return [_report(root, 'real'), _report(root, 'int'), _label_report(root)]
 
 
 def _report(root, kind):
@@ -183,4 +183,90 @@ def _report(root, kind):
         rep.paths = 1
     except (KeyError, Unsupported) as e:
         rep.unsupported = str(e)
+    return rep
+
+
+# ---------------------------------------------------------------------------------------------------
+# slice 3: the transcription -> label mapping that feeds align_text (the labels must be class indices below the blank)
+
+def _label_report(root):
+    """The statements `chars = ...`, `char_to_num = dict(zip(line.characters, chars))`, `blank_idx = ...`, `label = []` and the
+    loop `for item in line.transcription` that fills `label` are taken from the real source (first occurrence inside
+    to_altoxml_string) and executed from an arbitrary line: characters = arbitrary table of n symbols, transcription = arbitrary
+    sequence of m symbols, logits.shape[1] = arbitrary C >= 1.  dict(zip(keys, range(n))) is modelled as: key present iff it
+    occurs in the table, value = a position of the key in the table (python: the last one)."""
+    sym.reset_names()
+    rep = vrun.FnReport((PATH, FN + '[label mapping]'))
+    try:
+        info = extract.get_function(PATH, FN, root)
+        rep.info = info
+        loop = None
+        for n in ast.walk(info.node):
+            if isinstance(n, ast.For) and ast.unparse(n.iter) == 'line.transcription' and \
+                    any(isinstance(c, ast.Call) and isinstance(c.func, ast.Attribute) and c.func.attr == 'append'
+                        and isinstance(c.func.value, ast.Name) and c.func.value.id == 'label' for c in ast.walk(n)):
+                loop = n
+                break
+        if loop is None:
+            raise Unsupported('the loop that fills `label` from line.transcription was not found')
+        parent = next(p for p in ast.walk(info.node) if loop in getattr(p, 'body', []))
+        k = parent.body.index(loop)
+        # backward slice of the names the loop reads, over the plain assignments that precede it in the same block
+        needed = {n.id for n in ast.walk(loop) if isinstance(n, ast.Name) and isinstance(n.ctx, ast.Load)} - {'line'}
+        pre = []
+        for s in reversed(parent.body[:k]):
+            if isinstance(s, ast.Assign) and len(s.targets) == 1 and isinstance(s.targets[0], ast.Name) and s.targets[0].id in needed:
+                pre.insert(0, s)
+                needed |= {n.id for n in ast.walk(s.value) if isinstance(n, ast.Name)} - {'line'}
+        n_, m_, C_ = z3.Int('n_characters'), z3.Int('len_transcription'), z3.Int('n_classes')
+        CH = z3.Function('characters', z3.IntSort(), Sym)
+        TR = z3.Function('transcription', z3.IntSort(), Sym)
+        HAS = z3.Function('IN_TABLE', Sym, z3.BoolSort())
+        IDX = z3.Function('TABLE_INDEX', Sym, z3.IntSort())
+
+        def mkdict(ex, st, *a, **kw):
+            ex.assumed.append('model: dict(zip(characters, range(n))): a symbol is a key iff it occurs in the table; its value is a position of it in the table')
+            return lib.DictVal(lambda x: HAS(x), lambda x: IDX(x))
+        con = Contract(params={}, ghosts={'lib:builtins.dict': mkdict, 'seqvars': {'label': IntCodec}},
+                       loops={0: LoopSpec(counter='kk', inv=[
+                           'len(label) == kk',
+                           'forall(lambda j: implies(0 <= j and j < kk, label[j] == LABEL_OF(j)))'])})
+        ex = Exec(info, con, {}, name=FN + '[label mapping]')
+        ex.loop_nodes[id(loop)] = 0
+        st = State()
+        st.assume(z3.And(n_ >= 0, m_ >= 0, C_ >= 1))
+        x = z3.Const('x', Sym)
+        kq = z3.Int('kq')
+        st.assume(z3.ForAll([x], z3.Implies(HAS(x), z3.And(IDX(x) >= 0, IDX(x) < n_, CH(IDX(x)) == x)), patterns=[IDX(x)]))
+        st.assume(z3.ForAll([kq], z3.Implies(z3.And(kq >= 0, kq < n_), HAS(CH(kq))), patterns=[CH(kq)]))
+        line = Record({'characters': ArrayVal((n_,), lambda i: CH(to_int(i)), 'sym'),
+                       'transcription': ArrayVal((m_,), lambda i: TR(to_int(i)), 'sym'),
+                       'logits': Record({'shape': (z3.Int('n_frames'), C_)}, 'matrix')}, 'TextLine')
+        st.env['line'] = line
+        blank = C_ - 1
+        ex.spec_funcs['LABEL_OF'] = lib._spec(lambda j: z3.If(z3.And(HAS(TR(to_int(j))), IDX(TR(to_int(j))) < blank), IDX(TR(to_int(j))), z3.IntVal(0)))
+        ex.spec_funcs['M'] = m_
+        ex.spec_funcs['BLANK'] = blank
+        ex.entry = st.copy()
+        outs = ex.exec_block(pre + [loop], st)
+        if len(outs) != 1 or outs[0][1] is not None:
+            raise Unsupported('the label slice branches (%d paths)' % len(outs))
+        s2 = outs[0][0]
+        posts = [('post#0', 'len(label) == M', 'one label per character of the transcription'),
+                 ('post#1', 'forall(lambda j: implies(0 <= j and j < M, label[j] == LABEL_OF(j)))',
+                  'a character of the table below the blank is mapped to its index, every other character to 0'),
+                 ('post#2', 'forall(lambda j: implies(0 <= j and j < M and BLANK >= 1, 0 <= LABEL_OF(j) and LABEL_OF(j) < BLANK))',
+                  'that value is a class index below the blank (what align_text requires of its labels)')]
+        cut = []
+        for nm, text, note in posts:
+            ex.emit(s2, nm, ex.eval_spec(text, s2), loop, note, extra_hyps=cut)
+            cut = cut + [to_z3(ex.eval_spec(text, s2, role='hyp'))]
+        rep.vcs = ex.vcs
+        rep.axioms = ex.axioms
+        rep.assumed = sorted(set(ex.assumed)) + ['slice: %d statements before the loop + the loop, taken from the real source; `line` is an arbitrary line' % len(pre)]
+        rep.paths = 1
+    except Unsupported as e:
+        rep.unsupported = str(e)
+    except KeyError as e:
+        rep.unsupported = 'extraction failed: %s' % e
     return rep
